@@ -103,6 +103,27 @@ CHECKS = {
               "(url ordering itself is the url crate's and is assumed coherent)."),
         design_ref='DESIGN.md section 7 / C16',
         technique='Coq proof (total order by induction on diagrams via head comparison) + differential correspondence + cross-process sort'),
+    'C14': dict(
+        text=("Machine-checked proof (Coq) about a faithful model of the hash-consing store (arena, unique table as arena search, complement "
+              "bit, create_node's normalisation and reduction): the store invariant is preserved, the arena only grows, existing ids keep their "
+              "diagram, and two ids are equal exactly when they show the same diagram - for every reachable store, i.e. whatever was interned "
+              "before; every constructor yields well-formed diagrams; a program of marker operations observes the same diagrams and the same "
+              "pattern of equal markers after any two histories (hist_indep). The memoised recursion of and() is abstracted to its L1 meaning "
+              "(unfold / operate / intern) - that part is tied by the step-wise correspondence of C02 on warm caches, not proved. Tie: raw ids through the "
+              "cfg(pep508_rs_verif) hook (id equality <=> equal dumps, id^1 <=> negation, complement bit = model prediction, no new nodes on repetition); "
+              "fresh-process runs of the same program alone / after warm-ups / after the same versions under other spellings / permuted, comparing "
+              "raw dumps, Display, DNF, evaluate, ==/cmp/hash."),
+        design_ref='DESIGN.md section 7 / C14',
+        technique='Coq proof (hash-consing store invariant, injectivity of unfolding, refinement of programs) + hook-based id correspondence + cross-history differential'),
+    'C15': dict(
+        text=("Machine-checked proof (Coq) of the logic: for every schedule of atomic locked operations of several threads over one shared store, "
+              "each thread observes exactly what it observes running alone on an empty store, and equal diagrams are the same id across threads "
+              "(corollary of the store theorems of C14 by induction on the schedule). PARTIAL by nature: atomicity of each operation (std::sync::Mutex), "
+              "publication safety of boxcar::Vec, the memory model and absence of deadlock in the OS primitive are assumed; they are backed by a textual "
+              "audit of the lock discipline in every run and by a thread stress test (barrier-started races to intern the same fresh markers, "
+              "cross-thread ==, identical observations vs a single-threaded fresh process, deadlock watchdog), which is test evidence, not proof."),
+        design_ref='DESIGN.md section 7 / C15',
+        technique='Coq proof of schedule independence of the locked state machine + lock-discipline audit + thread stress (supporting evidence)'),
 }
 
 PENDING = {}
